@@ -46,6 +46,14 @@ M = {
  "C13-4": ("C13", "restore_old_graph only walks the base and its direct views", "failing in-place op on a tree with a view chain of depth >= 3: the deepest view's ops stay wired to placeholders, its grad reads None"),
  "C14-4": ("C14", "first-contribution dtype cast removed (relying on the strides test)", "0-d float32/float16 tensor receiving a freshly computed float64 gradient: stored grad is float64"),
  "C16-4": ("C16", "sliding_window_view rejects any step larger than the windowed axis", "valid single-placement configurations with step/stride > axis length (also through conv_nd / max_pool): ValueError"),
+ "C04-4": ("C04", ".shape setter swaps the placeholder into base._view_children instead of the direct parent's list", ".shape assigned on a view of a view, then any in-place update in the family: values wrong / ValueError where NumPy succeeds"),
+ "C07-5": ("C07", "placeholder._view_children becomes a plain list (strong references) in DuplicatingGraph", "in-place update while a view chain of depth >= 2 hangs off the base and is not consumed: placeholders form a reference cycle, freed only by the cyclic GC"),
+ "C08-4": ("C08", "the waiting-list shortcut tests `not _array_counter` instead of `not _array_tracker`", "a view (kept by the user as t.data / a view of an out= target) is waiting for its base and the base is the globally last locked array released: the view stays read-only"),
+ "C09-4": ("C09", "Tensor.backward clears the graph in a finally block", "L.backward() raises InvalidBackprop once; a second L.backward() then returns silently"),
+ "C11-4": ("C11", "weak-scalar dtype collection only when a Python scalar is among input_vars[1:]", "Python scalar as the LEADING operand (reflected operators, scalar-first calls) with a float32/float16/int8 tensor: float64/int64 result"),
+ "C15-4": ("C15", "the stale-view cleanup of _op hoisted before the tracking-off early return", "an op under no_autodiff whose input is a view released by an earlier backward: the input loses its base / its .grad changes"),
+ "C17-4": ("C17", "Tensor.__init__ prepends ndmin axes with np.array(data, ndmin=ndmin) (copies)", "Tensor(x, copy=False, ndmin=k) with k > x.ndim no longer shares memory with x"),
+ "C18-4": ("C18", "save() normalises path destinations with Path.with_suffix('.npz')", "file names with a dot that do not end in .npz (model.v1): archive written elsewhere / checkpoints overwrite each other"),
  "C05-4": ("C05", "_is_int_array_index only recognises ndarray / list index entries", "x[idx] = b with a repeated integer index spelled as a tuple / integer Tensor: the 'last write wins' masking of the value's gradient is skipped"),
  "C06-4": ("C06", "_op no longer detaches a disconnected view before choosing the base of a new view of it", "view taken from a view that an earlier backward() released: wrong .base (the previous epoch's base), .grad reads None after the next backward"),
  "C07-4": ("C07", "same code change as C06-4, found independently for C07", "repeating t = v[...]; (3*t).sum().backward() on a released view v: the gradient differs between iterations"),
@@ -87,7 +95,8 @@ DETECTED_BY = {
  "C15-1": ["C15"], "C15-2": ["C15"], "C15-3": ["C15"],
  "C16-1": ["C16"], "C16-2": ["C16"], "C16-3": ["C16"], "C16-4": ["C16"],
  "C17-1": ["C17"], "C17-2": ["C17"], "C17-3": ["C17"],
- "C18-1": ["C18"], "C18-2": ["C18"], "C18-3": ["C18"],
+ "C18-1": ["C18"], "C18-2": ["C18"], "C18-3": ["C18"], "C18-4": ["C18"],
+ "C04-4": ["C04", "C05"], "C07-5": ["C07"], "C08-4": ["C08"], "C09-4": ["C09"], "C11-4": ["C11", "C03"], "C15-4": ["C15"], "C17-4": ["C17"],
 }
 for k, (prop, what, needs) in M.items():
     d = os.path.join(HERE, "seeded", k)
